@@ -74,6 +74,7 @@ func runC03(c *Ctx) {
 	ruleValidateBeforeStore(c, "R3.6") // the gate in front of the share swap refuses nothing the DKG layer agreed on
 	ruleVaultSwap(c, "R3.5")           // the polynomial partials are checked against is swapped together with the group and share
 	ruleCallbackIdsDistinct(c, "R3.7")
+	ruleStopListeningRemovesOne(c, "R3.8")
 }
 
 // ruleGate checks the conditions dominating the injection of a remote partial; withClockOnly restricts to R4.5.
@@ -1364,4 +1365,145 @@ func ruleBoundedSyncStartsBelowBound(c *Ctx, rule string) {
 			"every path to the start of the sync crosses an edge establishing head.Round < request.upTo, or request.upTo == 0")
 	})
 	c.Floor(rule, "places where Run starts a sync", n, 1)
+}
+
+// R3.8: the result of every completed DKG (new group, new share) reaches the beacon processes through the fan-out
+// channel. Taking one listener off it leaves every other listener registered: a process that silently drops off the
+// fan-out keeps assembling beacons under the previous group and threshold after the next resharing.
+// Accepted ways of removing: in place (append(l[:i], l[i+1:]...) where l[i] is the listener), slices.Delete/DeleteFunc,
+// or a filter loop that looks at every listener and keeps each one that is not the listener being removed.
+func ruleStopListeningRemovesOne(c *Ctx, rule string) {
+	c.ranRules[rule] = true
+	n := 0
+	for _, fn := range c.P.SubjectFns() {
+		if isControlFn(fn) || fn.Parent() != nil || len(fn.Blocks) == 0 || baseNameOfMethod(fn) != "StopListening" || !strings.HasSuffix(fnPkgPath(fn), "internal/util") {
+			continue
+		}
+		var ch *ssa.Parameter
+		for _, p := range fn.Params {
+			if _, ok := p.Type().Underlying().(*types.Chan); ok {
+				ch = p
+			}
+		}
+		isListeners := func(v ssa.Value) bool {
+			u, ok := stripConv(v).(*ssa.UnOp)
+			if !ok || u.Op != token.MUL {
+				return false
+			}
+			fa, ok := u.X.(*ssa.FieldAddr)
+			return ok && fieldName(fa.X.Type(), fa.Field) == "listeners"
+		}
+		isThisListener := func(cond ssa.Value, truth bool) bool {
+			b, ok := cond.(*ssa.BinOp)
+			return ok && b.Op == token.EQL && truth && ch != nil && (stripConv(b.X) == ssa.Value(ch) || stripConv(b.Y) == ssa.Value(ch))
+		}
+		forEachInstr(fn, func(_ *ssa.BasicBlock, _ int, in ssa.Instruction) {
+			st, ok := in.(*ssa.Store)
+			if !ok {
+				return
+			}
+			fa, ok := st.Addr.(*ssa.FieldAddr)
+			if !ok || fieldName(fa.X.Type(), fa.Field) != "listeners" {
+				return
+			}
+			n++
+			ok2, why := false, "unrecognised way of removing a listener"
+			if call, isCall := stripConv(st.Val).(*ssa.Call); isCall {
+				if b, isB := call.Call.Value.(*ssa.Builtin); isB && b.Name() == "append" && len(call.Call.Args) == 2 {
+					s1, ok1 := call.Call.Args[0].(*ssa.Slice)
+					s2, okS2 := call.Call.Args[1].(*ssa.Slice)
+					if ok1 && okS2 && isListeners(s1.X) && isListeners(s2.X) && s1.High != nil && s2.Low != nil && s2.High == nil {
+						lowZero := s1.Low == nil
+						if k, isK := constInt(s1.Low); isK && k == 0 {
+							lowZero = true
+						}
+						next := false
+						if bo, isBo := s2.Low.(*ssa.BinOp); isBo && bo.Op == token.ADD {
+							if k, isK := constInt(bo.Y); isK && k == 1 && (bo.X == s1.High || pathOf(bo.X) == pathOf(s1.High)) {
+								next = true
+							}
+						}
+						guarded := condGuarded(in, isThisListener)
+						ok2 = lowZero && next && guarded
+						why = fmt.Sprintf("in place: listeners[:i] + listeners[i+1:] (prefix from 0: %v, suffix from i+1: %v), done where listeners[i] is the listener given: %v", lowZero, next, guarded)
+					}
+				} else if nm := calleeName(call); strings.HasPrefix(nm, "slices.Delete") {
+					ok2, why = true, "removed with "+nm
+				}
+			}
+			if !ok2 && why == "unrecognised way of removing a listener" {
+				// a filter loop
+				for _, h := range fn.Blocks {
+					back := false
+					for _, p := range h.Preds {
+						if h.Dominates(p) {
+							back = true
+						}
+					}
+					if !back {
+						continue
+					}
+					inLoop := func(b *ssa.BasicBlock) bool {
+						return b == h || (h.Dominates(b) && reachableFrom(b, func(edge) bool { return false })[h])
+					}
+					early := ""
+					var keepBlocks = map[*ssa.BasicBlock]bool{}
+					for _, b := range fn.Blocks {
+						if b == h || !inLoop(b) {
+							continue
+						}
+						for _, s := range b.Succs {
+							if !inLoop(s) {
+								early = "the loop is left from " + shortPos(c.P, b.Instrs[len(b.Instrs)-1]) + " before every listener was looked at"
+							}
+						}
+						for _, x := range b.Instrs {
+							if call, isCall := x.(*ssa.Call); isCall {
+								if bb, isB := call.Call.Value.(*ssa.Builtin); isB && bb.Name() == "append" {
+									keepBlocks[b] = true
+								}
+							}
+						}
+					}
+					if early != "" {
+						ok2, why = false, "filter loop: "+early
+						break
+					}
+					var body *ssa.BasicBlock
+					for _, s := range h.Succs {
+						if inLoop(s) && s != h {
+							body = s
+						}
+					}
+					if body == nil || len(keepBlocks) == 0 {
+						continue
+					}
+					skips := !keepBlocks[body] && reachableAvoidingFrom(body, h, func(e edge) bool {
+						if keepBlocks[e.from] {
+							return true
+						}
+						for _, cj := range edgeConjuncts(e) {
+							if isThisListener(cj.cond, cj.truth) {
+								return true
+							}
+						}
+						return false
+					})
+					ok2 = !skips
+					why = ifs(skips, "filter loop: an iteration can skip keeping a listener that is not the one given", "filter loop over all listeners: every listener other than the one given is kept")
+				}
+			}
+			c.Ok(rule, fnShort(fn)+" removes the listener it is given and keeps the others", shortPos(c.P, in), ok2, why)
+		})
+	}
+	c.Floor(rule, "updates of the fan-out listeners in StopListening", n, 1)
+}
+
+// baseNameOfMethod: the method name without receiver, package and type arguments.
+func baseNameOfMethod(fn *ssa.Function) string {
+	n := fn.Name()
+	if i := strings.LastIndex(n, "."); i >= 0 {
+		n = n[i+1:]
+	}
+	return n
 }
